@@ -87,3 +87,97 @@ def contracts():
         make_ret=lambda run, s: _fresh_history(run, s),
         ensures=post))
     return cs
+
+
+# ---------------------------------------------------------------------------------------------------
+# SIS branch: infection_times / recovery_times are dicts of lists, consumed with pop(0)
+# NOT REGISTERED in any check: the outer-loop obligations discharge, the preservation of the inner `while Itimes` invariant (pop(0) =
+# array shift under a lambda) stays `unknown` within the budgets, so nothing is claimed from this contract (DESIGN 9.11).
+# ---------------------------------------------------------------------------------------------------
+def sis_ok(IT0, x):
+    """only the first recorded infection of x may be at tmin (a later one at tmin would make the code start the history again)"""
+    return lambda tmin: so.forall_idx(IT0.lens[x], lambda i: IT0.vals[x][i] != tmin, lo=1)
+
+
+def sis_alt(IT0, RT0, x):
+    """every infection but possibly the last has its recovery recorded"""
+    return IT0.lens[x] <= RT0.lens[x] + 1
+
+
+def sis_hist_prefix(h, x, tmin, IT0, RT0, i, with_rec_of_last=True):
+    """history of x after i infections of its list were consumed (and the recoveries that go with them)"""
+    a, b = IT0.lens[x], RT0.lens[x]
+    base = If(And(a >= 1, IT0.vals[x][0] == tmin), 0, 1)
+    nrec = If(i <= b, i, b)
+    if not with_rec_of_last:
+        nrec = If(i - 1 <= b, i - 1, b)
+    return And(h.times.lens[x] == base + i + nrec,
+               Implies(base == 1, entry(h, x, 0, tmin, SC('S'))),
+               so.forall_idx(i, lambda j: entry(h, x, base + 2 * j, IT0.vals[x][j], SC('I'))),
+               so.forall_idx(nrec, lambda j: entry(h, x, base + 2 * j + 1, RT0.vals[x][j], SC('S'))))
+
+
+def sis_contracts():
+    DL = T.dict_of_lists('U', 'R')
+
+    def inv_nodes(s, it):
+        h = s.node_history
+        U = so.U()
+        IT0, RT0 = it.entry.infection_times, it.entry.recovery_times
+        itc, rtc = s.infection_times, s.recovery_times
+        return And(h.wellformed(),
+                   so.forall(U, lambda x: Implies(And(sis_ok(IT0, x)(s.tmin), sis_alt(IT0, RT0, x)),
+                       If(And(IT0.dom[x], it.done(x)),
+                          sis_hist_prefix(h, x, s.tmin, IT0, RT0, IT0.lens[x]),
+                          And(h.times.lens[x] == 1, entry(h, x, 0, s.tmin, SC('S')))))),
+                   # lists not yet consumed are untouched
+                   so.forall(U, lambda x: Implies(Not(it.done(x)), And(
+                       itc.lens[x] == IT0.lens[x], rtc.lens[x] == RT0.lens[x],
+                       so.forall_idx(IT0.lens[x], lambda j: itc.vals[x][j] == IT0.vals[x][j]),
+                       so.forall_idx(RT0.lens[x], lambda j: rtc.vals[x][j] == RT0.vals[x][j])))),
+                   so.forall(U, lambda x: And(IT0.lens[x] >= 0, RT0.lens[x] >= 0)))
+
+    def inv_pops(s, it):
+        h = s.node_history
+        U = so.U()
+        outer = it.outer
+        IT0, RT0 = outer.entry.infection_times, outer.entry.recovery_times
+        itc, rtc = s.infection_times, s.recovery_times
+        x0 = s.node
+        a, b = IT0.lens[x0], RT0.lens[x0]
+        i = a - itc.lens[x0]
+        nrec = If(i <= b, i, b)
+        return And(h.wellformed(), Not(outer.done(x0)), IT0.dom[x0],
+                   0 <= i, i <= a, rtc.lens[x0] == b - nrec,
+                   so.forall_idx(itc.lens[x0], lambda j: itc.vals[x0][j] == IT0.vals[x0][i + j]),
+                   so.forall_idx(rtc.lens[x0], lambda j: rtc.vals[x0][j] == RT0.vals[x0][nrec + j]),
+                   Implies(And(sis_ok(IT0, x0)(s.tmin), sis_alt(IT0, RT0, x0)),
+                           If(i == 0, And(h.times.lens[x0] == 1, entry(h, x0, 0, s.tmin, SC('S'))),
+                              sis_hist_prefix(h, x0, s.tmin, IT0, RT0, i))),
+                   so.forall(U, lambda x: Implies(And(x != x0, sis_ok(IT0, x)(s.tmin), sis_alt(IT0, RT0, x)),
+                       If(And(IT0.dom[x], outer.done(x)),
+                          sis_hist_prefix(h, x, s.tmin, IT0, RT0, IT0.lens[x]),
+                          And(h.times.lens[x] == 1, entry(h, x, 0, s.tmin, SC('S')))))),
+                   so.forall(U, lambda x: Implies(And(x != x0, Not(outer.done(x))), And(
+                       itc.lens[x] == IT0.lens[x], rtc.lens[x] == RT0.lens[x],
+                       so.forall_idx(IT0.lens[x], lambda j: itc.vals[x][j] == IT0.vals[x][j]),
+                       so.forall_idx(RT0.lens[x], lambda j: rtc.vals[x][j] == RT0.vals[x][j])))),
+                   so.forall(U, lambda x: And(IT0.lens[x] >= 0, RT0.lens[x] >= 0)))
+
+    def post(old, s, ret):
+        if not isinstance(ret, SHistory):
+            return BoolVal(False)
+        U = so.U()
+        IT0, RT0 = old.infection_times, old.recovery_times
+        return so.forall(U, lambda x: Implies(And(sis_ok(IT0, x)(old.tmin), sis_alt(IT0, RT0, x)),
+                   If(IT0.dom[x], sis_hist_prefix(ret, x, old.tmin, IT0, RT0, IT0.lens[x]),
+                      And(ret.times.lens[x] == 1, entry(ret, x, 0, old.tmin, SC('S'))))))
+
+    return [Contract(F, '_transform_to_node_history_',
+        cases=[Case('SIS', dict(infection_times=DL, recovery_times=DL, tmin=T.real, SIR=T.false))],
+        requires=lambda s: so.forall(so.U(), lambda x: And(s.infection_times.lens[x] >= 0, s.recovery_times.lens[x] >= 0,
+                                                           Implies(Not(s.infection_times.dom[x]), s.infection_times.lens[x] == 0))),
+        locals_={'node_history': T.history('tmin')},
+        loops={2: inv_nodes, 3: inv_pops},
+        make_ret=lambda run, s: _fresh_history(run, s),
+        ensures=post)]
